@@ -14,13 +14,22 @@ SLAB_FIELDS = ('index', 'embeddings', 'metadata', 'graph', 'relations', 'blobs',
 
 
 def r11a(ctx, rep, cr):
-    rep.rule('R11a', 'MetadataSlab::{get, set, delete, contains} acquire exactly one guard, on the shard selected by shard_index(key), '
+    rep.rule('R11a', 'MetadataSlab::{get, set, delete, contains} acquire exactly one guard (and call no sibling method that takes one), on the shard selected by shard_index(key), '
                      'and every BTreeMap operation happens while that guard is live on all paths')
     for name in ('get', 'set', 'delete', 'contains'):
         f = rep.require_fn('R11a', cr, MS + name)
         if f is None:
             continue
         defs = A.Defs(f)
+        # one operation = one critical section: no second acquisition hidden in a sibling method (`self.delete(key)` then insert)
+        sib = [c for c in A.calls(f) if c.resolved.startswith(MS) and c.resolved != f.name and c.resolved in cr.fns and
+               any(g_.acq_calls for g_ in A.guards(cr.fns[c.resolved], A.Defs(cr.fns[c.resolved])))]
+        if sib:
+            rep.violation('R11a', f, 'two-critical-sections', f.loc(sib[0].line),
+                          '%s also calls %s, which takes the shard lock on its own: the operation is split over two critical sections, and '
+                          'between them a concurrent reader sees a state no single operation produces (a key that was put and never deleted '
+                          'is absent)' % (lib.short(f.name), lib.short(sib[0].resolved)))
+            continue
         gs = [g for g in A.guards(f, defs) if g.acq_calls]
         if len(gs) != 1 or len(gs[0].acq_calls) != 1:
             rep.violation('R11a', f, 'guards', f.loc(), 'expected exactly one shard guard acquisition, found %d' % sum(len(g.acq_calls) for g in gs))
